@@ -17,7 +17,8 @@ ASSUMPTIONS = ["control files with duplicate keys are outside the domain (proper
                "an address with several '@' on which the percent hack fires is unspecified (which '@' delimits the domain of the rewritten address): "
                "only conservation (appears exactly once, nothing else appears) is checked there, counted as slack"]
 
-LABELS = ["a.example", "b.example", "sub.a.example", "c.test", "deep.sub.a.example"]
+# the last label carries every letter of the alphabet: "all matching ignores case" must hold for each of the 26 (added after seeded change C10-E)
+LABELS = ["a.example", "b.example", "sub.a.example", "c.test", "deep.sub.a.example", "quick-brown-fox.jumps-over.lazy-dog.vwxyz.test"]
 USERS = ["joe", "ann", "list", "x"]
 
 
@@ -331,6 +332,21 @@ def worker(job):
     return stats
 
 
+def alphabet_fixed():
+    """every letter in a control-file key meets its other case in the address, in locals, virtualdomains (domain, user@domain and
+    .suffix keys) and percenthack"""
+    pan = "quick-brown-fox.jumps-over.lazy-dog.vwxyz.test"
+    out = []
+    for key, addr in ((pan, pan.upper()), (pan.upper(), pan), (pan.title(), pan.swapcase())):
+        out.append({"controls": {"me": "me.test\n", "locals": key + "\n"}, "sender": "s@other.test", "rcpts": ["joe@" + addr, "joe@x." + addr]})
+        out.append({"controls": {"me": "me.test\n", "locals": "\n", "virtualdomains": "%s:vdom\n" % key}, "sender": "s@other.test", "rcpts": ["joe@" + addr, "ann@x." + addr]})
+        out.append({"controls": {"me": "me.test\n", "locals": "\n", "virtualdomains": ".%s:vsuf\n" % key}, "sender": "s@other.test", "rcpts": ["joe@sub." + addr, "joe@" + addr]})
+        out.append({"controls": {"me": "me.test\n", "locals": "\n", "virtualdomains": "Jack.Q.Public-%s@%s:vuser\n" % ("vwxyz", key)}, "sender": "s@other.test",
+                    "rcpts": ["jACK.q.pUBLIC-VWXYZ@" + addr, "jack.q.public-vwxyz@" + key]})
+        out.append({"controls": {"me": "me.test\n", "locals": "a.example\n", "percenthack": key + "\n"}, "sender": "s@other.test", "rcpts": ["joe%a.example@" + addr]})
+    return out
+
+
 def wide_fixed():
     """envelopes whose local and remote record volumes straddle 1024 and 2048 bytes in every combination (60 local x 3 remote, ...)"""
     ctl = {"me": "me.test\n", "locals": "a.example\nb.example\n", "virtualdomains": "c.test:vuser\n"}
@@ -353,7 +369,7 @@ def run(ctx):
     sandbox.ensure_shim()
     tree = vlib.Tree().make("qmail-queue", "qmail-send", "qmail-clean")
     nw = vlib.NCPU
-    fixed = wide_fixed()
+    fixed = wide_fixed() + alphabet_fixed()
     d = os.path.join(vlib.VERIF, "corpus", "C10", "regress")
     if os.path.isdir(d):
         for f in sorted(os.listdir(d)):
